@@ -181,7 +181,9 @@ def run(M, rep, tier, only=None):
     else:
         paths = explore(cfg, f, "RangeDimension", {"ticks": V(("given", "ticks"), [py("tuple")])}, 5000)
         rep.assume("NumPy raises IndexError when an empty selection is indexed (np.where(...)[0][-1])")
-        for ticks in ((1.0, 2.0, 4.0, 8.0), (5.0,), (-2.0, -1.0, 0.0), (1.0, 1.0, 2.0, 2.0)):
+        # (the last two vectors: ticks closer together than any floating-point tolerance a comparison might use -- exact order decides)
+        for ticks in ((1.0, 2.0, 4.0, 8.0), (5.0,), (-2.0, -1.0, 0.0), (1.0, 1.0, 2.0, 2.0),
+                      (0.0, 2e-9, 4e-9, 6e-9, 8e-9), (400000.0, 400000.5, 400001.0, 400001.5)):
             pts = {"before": ticks[0] - 1, "first": ticks[0], "last": ticks[-1], "after": ticks[-1] + 1,
                    "between": (ticks[0] + ticks[-1]) / 2.0 + 0.01, "inner": ticks[len(ticks) // 2]}
             for pname, pos in pts.items():
@@ -370,6 +372,41 @@ def run(M, rep, tier, only=None):
             rep.ok(R4, "SampledDimension.index_of")
 
     # ---- R6: a dimension descriptor answers from the file, not from what an earlier call saw
+    # ---- R7: position-of-index is exactly offset + index * interval (the value index_of maps back to the index): no rounding to a
+    # fixed number of decimals, no tolerance -- whatever the interval's magnitude
+    R7 = rep.rule("C07.R7", "index_of(position_at(i)) = i for sampled dimensions of any interval magnitude", floor=20,
+                  technique="returned expression of every abstract path evaluated on an (offset, interval, index) grid incl. sub-nanosecond intervals")
+    sdc = M.classes.get("SampledDimension")
+    pa = M.lookup(sdc, "position_at") if sdc else None
+    if pa is None:
+        rep.bad(R7, "SampledDimension.position_at", "required mechanism not found")
+    else:
+        ppaths = explore(cfg, pa, "SampledDimension", None, 2000)
+        io_f = M.lookup(sdc, "index_of")
+        io_paths = explore(cfg, io_f, "SampledDimension", None, 5000) if io_f is not None else None
+        iname = pa.params[1] if len(pa.params) > 1 else "index"
+        for offset in (None, 0.0, 0.3, -1.5, 1e5):
+            for interval in (0.1, 2.0, 1.0 / 30000, 1.0 / 3e6, 4e-11, 2.5e-7):
+                if offset and abs(offset) / interval > 1e9:
+                    continue        # beyond what double precision can resolve: not a statement about the code
+                for k in (0, 1, 3, 7, 1000):
+                    te = mk_eval({iname: k, "offset": offset, "sampling_interval": interval})
+                    rows_ = select(ppaths, te, "SampledDimension.position_at")
+                    outs_ = {repr(outcome(p_, te)) for p_ in rows_}
+                    if len(outs_) != 1:
+                        raise AnalysisError("decision table of SampledDimension.position_at: %d rows / outcomes %s" % (len(rows_), sorted(outs_)))
+                    got = outcome(rows_[0], te)
+                    # ... and back: the extracted table of index_of, asked for the sample at / at-or-after that position
+                    back = []
+                    if got[0] == "return" and isinstance(got[1], (int, float)) and io_paths is not None:
+                        for m in ("LessOrEqual", "GreaterOrEqual"):
+                            te2 = mk_eval({"position": got[1], "offset": offset, "sampling_interval": interval}, mode_val(m))
+                            back.append(eval_rows(io_paths, te2, "SampledDimension.index_of")[0])
+                    okb = got[0] == "return" and back and all(b == ("return", k) for b in back)
+                    rep.check(R7, "position_at/offset=%s/interval=%s/%d" % (offset, interval, k), okb,
+                              "position_at(%d) with offset %s and interval %s yields %s, which index_of converts back to %s, not to %d" % (
+                                  k, offset, interval, got, back, k), site=pa.file + ":%d" % pa.node.lineno)
+
     R6 = rep.rule("C07.R6", "dimension descriptors keep nothing read from the file (ticks, labels, interval ... are read on every conversion)",
                   floor=1, technique="stateless-handle classification (see C02.R7)")
     from . import stateless
